@@ -142,4 +142,9 @@ example : Eqv (.obj [("a", .num 1), ("b", .obj [("p", .null), ("q", .str "s")])]
 /-- `Eqv` is not trivially true: arrays keep their order -/
 example : ¬ Eqv (.arr [.num 1, .num 2]) (.arr [.num 2, .num 1]) := eqv_arr_swap_false
 
+/-- model-level test (a test, not a theorem): `x-order` is read to sort the properties — a numeral in a string
+counts like the number — and is written back as it was found (the input class behind seed C01k) -/
+example : norm "schema" (.obj [("properties", .obj [("a", .obj [("x-order", .num 3)]), ("b", .obj [("x-order", .str "2")])])])
+    = .ok (.obj [("properties", .obj [("b", .obj [("x-order", .str "2")]), ("a", .obj [("x-order", .num 3)])])]) := by rfl
+
 end SpecModel.Props.C01
